@@ -73,9 +73,12 @@ package jobconfigcontroller
 // the Jobs of a JobConfig (namespace ns, UID uid) in the Job cache
 //@ pure wanted(rj *execution.Job, active bool) bool = active ? job.IsActive(rj) : job.IsQueued(rj)
 // a reference list names exactly the cached Jobs that are active (resp. queued)
-//@ pure listsExactly(refs []execution.JobReference, ns string, uid string, active bool) bool =
+// (stated as two clauses per list -- every wanted Job is listed / every entry is a wanted Job -- so that each is one
+// quantifier direction for the solver; together they are "exactly")
+//@ pure listsAll(refs []execution.JobReference, ns string, uid string, active bool) bool =
 //@     (forall i int :: {jobsCachedAt(ns, uid, i)} 0 <= i && i < jobsCachedN(ns, uid) && wanted(jobsCachedAt(ns, uid, i), active) ==> (exists k int :: 0 <= k && k < len(refs) && refOf(refs[k], jobsCachedAt(ns, uid, i))))
-//@     && (forall k int :: {refs[k]} 0 <= k && k < len(refs) ==> (exists i int :: 0 <= i && i < jobsCachedN(ns, uid) && wanted(jobsCachedAt(ns, uid, i), active) && refOf(refs[k], jobsCachedAt(ns, uid, i))))
+//@ pure listsOnly(refs []execution.JobReference, ns string, uid string, active bool) bool =
+//@     (forall k int :: {refs[k]} 0 <= k && k < len(refs) ==> (exists i int :: 0 <= i && i < jobsCachedN(ns, uid) && wanted(jobsCachedAt(ns, uid, i), active) && refOf(refs[k], jobsCachedAt(ns, uid, i))))
 // what the property demands of a status, relative to the cached JobConfig and its cached Jobs
 //@ pure accCounts(st execution.JobConfigStatus) bool = st.Active == len(st.ActiveJobs) && st.Queued == len(st.QueuedJobs)
 //@ pure accState(st execution.JobConfigStatus, rjc *execution.JobConfig) bool = st.State == jobconfig.stateFor(st.Active, st.Queued, rjc.Spec.Schedule)
@@ -108,15 +111,19 @@ package jobconfigcontroller
 //@   ensures [C15] written-identity: jcwN == old(jcwN) + 1 ==> jcCached(namespace, name) != nil
 //@        && jcwObj[old(jcwN)].Name == name && jcwObj[old(jcwN)].Namespace == namespace && jcwObj[old(jcwN)].UID == jcCached(namespace, name).UID
 //@   ensures [C15] written-counts-match-lists: jcwN == old(jcwN) + 1 ==> accCounts(jcwObj[old(jcwN)].Status)
-//@   ensures [C15] written-active-jobs-exact: jcwN == old(jcwN) + 1 ==> listsExactly(jcwObj[old(jcwN)].Status.ActiveJobs, old(jcCached(namespace, name).Namespace), old(string(jcCached(namespace, name).UID)), true)
-//@   ensures [C15] written-queued-jobs-exact: jcwN == old(jcwN) + 1 ==> listsExactly(jcwObj[old(jcwN)].Status.QueuedJobs, old(jcCached(namespace, name).Namespace), old(string(jcCached(namespace, name).UID)), false)
+//@   ensures [C15] written-active-jobs-all-listed: jcwN == old(jcwN) + 1 ==> listsAll(jcwObj[old(jcwN)].Status.ActiveJobs, old(jcCached(namespace, name).Namespace), old(string(jcCached(namespace, name).UID)), true)
+//@   ensures [C15] written-active-jobs-only-listed: jcwN == old(jcwN) + 1 ==> listsOnly(jcwObj[old(jcwN)].Status.ActiveJobs, old(jcCached(namespace, name).Namespace), old(string(jcCached(namespace, name).UID)), true)
+//@   ensures [C15] written-queued-jobs-all-listed: jcwN == old(jcwN) + 1 ==> listsAll(jcwObj[old(jcwN)].Status.QueuedJobs, old(jcCached(namespace, name).Namespace), old(string(jcCached(namespace, name).UID)), false)
+//@   ensures [C15] written-queued-jobs-only-listed: jcwN == old(jcwN) + 1 ==> listsOnly(jcwObj[old(jcwN)].Status.QueuedJobs, old(jcCached(namespace, name).Namespace), old(string(jcCached(namespace, name).UID)), false)
 //@   ensures [C15] written-state-reflects-counts: jcwN == old(jcwN) + 1 ==> accState(jcwObj[old(jcwN)].Status, jcCached(namespace, name))
 //@   ensures [C15] written-last-scheduled-covers-jobs: jcwN == old(jcwN) + 1 ==> accSched(jcwObj[old(jcwN)].Status, old(jcCached(namespace, name).Namespace), old(string(jcCached(namespace, name).UID)))
 //@   ensures [C15] written-last-executed-covers-jobs: jcwN == old(jcwN) + 1 ==> accExec(jcwObj[old(jcwN)].Status, old(jcCached(namespace, name).Namespace), old(string(jcCached(namespace, name).UID)))
 //@   ensures [C15] written-times-never-move-back: jcwN == old(jcwN) + 1 ==> accMono(jcwObj[old(jcwN)].Status, jcCached(namespace, name))
 //@   ensures [C15] quiet-counts-match-lists: result == nil && jcwN == old(jcwN) && jcCached(namespace, name) != nil ==> accCounts(jcCached(namespace, name).Status)
-//@   ensures [C15] quiet-active-jobs-exact: result == nil && jcwN == old(jcwN) && jcCached(namespace, name) != nil ==> listsExactly(jcCached(namespace, name).Status.ActiveJobs, old(jcCached(namespace, name).Namespace), old(string(jcCached(namespace, name).UID)), true)
-//@   ensures [C15] quiet-queued-jobs-exact: result == nil && jcwN == old(jcwN) && jcCached(namespace, name) != nil ==> listsExactly(jcCached(namespace, name).Status.QueuedJobs, old(jcCached(namespace, name).Namespace), old(string(jcCached(namespace, name).UID)), false)
+//@   ensures [C15] quiet-active-jobs-all-listed: result == nil && jcwN == old(jcwN) && jcCached(namespace, name) != nil ==> listsAll(jcCached(namespace, name).Status.ActiveJobs, old(jcCached(namespace, name).Namespace), old(string(jcCached(namespace, name).UID)), true)
+//@   ensures [C15] quiet-active-jobs-only-listed: result == nil && jcwN == old(jcwN) && jcCached(namespace, name) != nil ==> listsOnly(jcCached(namespace, name).Status.ActiveJobs, old(jcCached(namespace, name).Namespace), old(string(jcCached(namespace, name).UID)), true)
+//@   ensures [C15] quiet-queued-jobs-all-listed: result == nil && jcwN == old(jcwN) && jcCached(namespace, name) != nil ==> listsAll(jcCached(namespace, name).Status.QueuedJobs, old(jcCached(namespace, name).Namespace), old(string(jcCached(namespace, name).UID)), false)
+//@   ensures [C15] quiet-queued-jobs-only-listed: result == nil && jcwN == old(jcwN) && jcCached(namespace, name) != nil ==> listsOnly(jcCached(namespace, name).Status.QueuedJobs, old(jcCached(namespace, name).Namespace), old(string(jcCached(namespace, name).UID)), false)
 //@   ensures [C15] quiet-state-reflects-counts: result == nil && jcwN == old(jcwN) && jcCached(namespace, name) != nil ==> accState(jcCached(namespace, name).Status, jcCached(namespace, name))
 //@   ensures [C15] quiet-last-scheduled-covers-jobs: result == nil && jcwN == old(jcwN) && jcCached(namespace, name) != nil ==> accSched(jcCached(namespace, name).Status, old(jcCached(namespace, name).Namespace), old(string(jcCached(namespace, name).UID)))
 //@   ensures [C15] quiet-last-executed-covers-jobs: result == nil && jcwN == old(jcwN) && jcCached(namespace, name) != nil ==> accExec(jcCached(namespace, name).Status, old(jcCached(namespace, name).Namespace), old(string(jcCached(namespace, name).UID)))
